@@ -159,6 +159,28 @@ class Ctx:
         self.obligs.append(ob)
         return ob
 
+    def quick_valid(self, goal, assumptions=(), timeout_ms=2000):
+        """cheap attempt: syntactic identity after simplification, then a short solver call.
+        returns 'proved' | 'failed' | 'unknown' (no second opinion)"""
+        g = z3.simplify(goal)
+        if z3.is_true(g):
+            return "proved", None
+        if z3.is_eq(g) and g.arg(0).eq(g.arg(1)):
+            return "proved", None
+        self.nq += 1
+        t = time.time()
+        self.solver.push()
+        self.solver.set("timeout", timeout_ms)
+        for a in assumptions:
+            self.solver.add(a)
+        self.solver.add(z3.Not(goal))
+        r = self.solver.check()
+        model = self.solver.model() if r == z3.sat else None
+        self.solver.set("timeout", INCREMENTAL_TIMEOUT_MS)
+        self.solver.pop()
+        self.solver_time += time.time() - t
+        return ("proved" if r == z3.unsat else ("failed" if r == z3.sat else "unknown")), model
+
     def check_valid(self, goal, assumptions=()):
         """validity of `goal` under the path condition (+ extra assumptions): 'proved' | 'failed' |
         'unknown'.  z3 incremental first; on unknown a fresh z3 solver, then cvc5 on the SMT-LIB dump."""
